@@ -49,6 +49,13 @@ type Evidence struct {
 	Violations  int            `json:"violations"`
 }
 
+func outDir() string {
+	if OutDir != "" {
+		return OutDir
+	}
+	return VerifDir
+}
+
 func hasProp(s *FuncSpec, prop string) bool {
 	for _, p := range s.Props {
 		if p == prop {
@@ -74,9 +81,9 @@ func cmdCheck(args []string) int {
 	t0 := time.Now()
 	code, ev := runCheck(*prop, *tier, seed)
 	ev.WallS = time.Since(t0).Seconds()
-	os.MkdirAll(filepath.Join(VerifDir, "evidence"), 0o755)
+	os.MkdirAll(filepath.Join(outDir(), "evidence"), 0o755)
 	b, _ := json.MarshalIndent(ev, "", " ")
-	if err := os.WriteFile(filepath.Join(VerifDir, "evidence", *prop+".json"), b, 0o644); err != nil {
+	if err := os.WriteFile(filepath.Join(outDir(), "evidence", *prop+".json"), b, 0o644); err != nil {
 		fmt.Fprintln(os.Stderr, err)
 		return 2
 	}
@@ -244,7 +251,13 @@ func runCheck(prop, tier string, seed int) (int, *Evidence) {
 			if o.Canary {
 				nCanary++
 				if o.Result == "unsat" {
+					// the program point is unreachable under the contracts: on the unchanged tree every canary is
+					// reachable (or the return is declared dead-return), so this is a reachability obligation that
+					// held and now fails — reported as a violation of its own, since everything after that point
+					// would otherwise pass vacuously
 					vacuous = append(vacuous, o.Name)
+					o.Result = "program point unreachable: code or contracts contradictory here"
+					violations = append(violations, o)
 				} else {
 					nCanaryOK++
 				}
@@ -262,8 +275,12 @@ func runCheck(prop, tier string, seed int) (int, *Evidence) {
 			for _, kf := range known {
 				if kf.Status == "known" && kf.Obligation == o.Name {
 					matched = true
-					fmt.Printf("KNOWN-FINDING: property=%s %s: %s (witness: %s)\n", prop, kf.ID, kf.Description, kf.Witness)
-					knownHit = append(knownHit, kf.ID+" "+o.Name)
+					if kf.Property == prop {
+						fmt.Printf("KNOWN-FINDING: property=%s %s: %s (witness: %s)\n", prop, kf.ID, kf.Description, kf.Witness)
+					}
+					// (a finding listed under another property whose functions this check also covers through the callee
+					// closure is accounted for in the evidence, but reported by that property's own check only)
+					knownHit = append(knownHit, kf.ID+" ("+kf.Property+") "+o.Name)
 				}
 			}
 			if matched {
@@ -280,9 +297,7 @@ func runCheck(prop, tier string, seed int) (int, *Evidence) {
 			}
 		}
 	}
-	if len(vacuous) > 0 {
-		return fail("vacuity: assumptions are contradictory at %s", strings.Join(vacuous, ", "))
-	}
+	_ = vacuous
 	sort.Strings(funcs)
 	var assumptions []string
 	var ext []string
@@ -339,10 +354,10 @@ func runCheck(prop, tier string, seed int) (int, *Evidence) {
 			prop, nObl, len(results), len(knownHit), nCanaryOK, stats.Seconds)
 		return 0, ev
 	}
-	os.MkdirAll(filepath.Join(VerifDir, "replay", prop), 0o755)
+	os.MkdirAll(filepath.Join(outDir(), "replay", prop), 0o755)
 	var vsamples []any
 	for _, o := range violations {
-		path := filepath.Join(VerifDir, "replay", prop, sanitize(shortKey(o.Name))+".json")
+		path := filepath.Join(outDir(), "replay", prop, sanitize(shortKey(o.Name))+".json")
 		rep := map[string]any{"property": prop, "obligation": o.Name, "kind": o.Kind, "source": o.Pos, "solver_result": o.Result, "solver": o.Solver,
 			"goal": o.Goal, "model": trunc(o.Model, 20000)}
 		suffix := ""
